@@ -57,6 +57,7 @@ type c03Case struct {
 	N         int    `json:"items"`
 	Pos       []int  `json:"fail_positions"`
 	Late      bool   `json:"second_failure_returns_after_first"`
+	Comp      int    `json:"item_that_returns_ErrCurrentOpAbort,omitempty"` // 1-based; 0 = none
 	Procs     int    `json:"gomaxprocs"`
 	Speed     string `json:"worker_speed"`
 }
@@ -75,6 +76,7 @@ type c03Failure struct {
 	panicV  any
 	find    []error // errors.Is targets that must be found when reported
 	contain string  // substring of the result's text (panic with a non-error value)
+	comp    bool    // the accompanying abort sentinel, not one of the judged failures
 }
 
 func c03MakeFailure(kind string, pos int, base error) c03Failure {
@@ -204,6 +206,21 @@ func runC03(r *kit.Run) {
 							}
 						}
 						c.Procs = kit.ProcsFor(cell)
+						if rep, _, _ := c.classify(); rep && c.N >= 3 && rng.IntN(4) == 0 {
+							// an extra run of this cell in which one more item gives up with
+							// (a wrapper of) ErrCurrentOpAbort: the judged failures that
+							// happened are still reported next to it
+							c2 := c
+							for try := 0; try < 8 && c2.Comp == 0; try++ {
+								q := rng.IntN(c.N)
+								if q != c.Pos[0] && q != c.Pos[len(c.Pos)-1] {
+									c2.Comp = q + 1
+								}
+							}
+							if c2.Comp > 0 {
+								c03Run(r, cell, c2, r.Rng("comp", cell), false)
+							}
+						}
 						if c.Construct == "GenerateParallel" && c.Kind == "eof" {
 							continue // io.EOF from a generator is the natural end of that worker's input, not a failure
 						}
@@ -265,6 +282,10 @@ func c03Run(r *kit.Run, idx int64, c c03Case, rng *rand.Rand, quiet bool) (after
 		injectedBases = append(injectedBases, base)
 		failures[p] = c03MakeFailure(c.Kind, p, base)
 	}
+	if c.Comp > 0 {
+		failures[c.Comp-1] = c03Failure{ret: fmt.Errorf("giving up on %d: %w", c.Comp, ers.ErrCurrentOpAbort), comp: true}
+	}
+	var compHappened atomic.Bool
 	// invocation records are written lock-free (one slot per item id): a
 	// monitor mutex taken between the return stamp and the actual return
 	// would delay the failing goroutine under contention and make other
@@ -296,7 +317,10 @@ func c03Run(r *kit.Run, idx int64, c c03Case, rng *rand.Rand, quiet bool) (after
 		first := id >= 0 && id < len(counts) && counts[id].Add(1) == 1
 		ret := kit.Stamp() // the last thing before returning
 		if first {
-			slots[id] = c03Inv{id: id, g: g, call: call, ret: ret, failed: isFail}
+			slots[id] = c03Inv{id: id, g: g, call: call, ret: ret, failed: isFail && !f.comp}
+			if isFail && f.comp {
+				compHappened.Store(true)
+			}
 		}
 		if isFail {
 			if c.Kind != "skip" {
@@ -496,6 +520,8 @@ func c03Run(r *kit.Run, idx int64, c c03Case, rng *rand.Rand, quiet bool) (after
 		// the group's own abort cancelled the workers' context and
 		// IncludeContextExpirationErrors asks for context errors: tolerated
 		r.Count("context_errors_from_internal_abort_reported", 1)
+	} else if !anyReportable && result != nil && compHappened.Load() {
+		// the accompanying ErrCurrentOpAbort is an ordinary error for the collector
 	} else if !anyReportable && result != nil {
 		viol("unreportable-reported", fmt.Sprintf("no reportable failure occurred (%s, excluded=%s, include-ctx=%v) but the result is %v", c.Kind, c.Excluded, c.InclCtx, result))
 		return
@@ -530,6 +556,12 @@ func c03Run(r *kit.Run, idx int64, c c03Case, rng *rand.Rand, quiet bool) (after
 			viol("unreportable-reported", fmt.Sprintf("a context error is part of the result %v without IncludeContextExpirationErrors", result))
 			return
 		}
+	}
+	if c.Comp > 0 {
+		// with the abort sentinel in the run only the reporting clauses are judged
+		r.Count("cells_with_an_accompanying_ErrCurrentOpAbort", 1)
+		r.Count("failures_observed", int64(len(happened)))
+		return c03After{}, false
 	}
 	if continues {
 		// (5) every item processed exactly once, every output present
